@@ -12,7 +12,7 @@ OV="$ROOT/bin/ov.cover"; "$ROOT/mkoverlay.sh" "$OV" "$REPO" || exit 2
 cp "$ROOT/mc/go.mod" "$OV/go.mod"; cp "$REPO/go.sum" "$OV/go.sum"
 cd "$ROOT/mc"
 # go build -cover instruments the original files, not the overlay: the packages whose sync imports are rewritten stay uninstrumented
-PKGS=$(cd "$REPO" && go list ./pkg/... | grep -v -E "/pkg/batch(/|$)|/mocks|/verifhooks" | paste -sd,)
+PKGS=$(cd "$REPO" && go list ./pkg/... | grep -v -E "/pkg/batch(/|$)|/mocks|/verifhooks" | paste -sd,),verif/mc/cmd/check
 go build -modfile="$OV/go.mod" -tags verif -overlay "$OV/overlay.json" -cover -coverpkg="$PKGS" -o "$COV/check" ./cmd/check || exit 2
 rm -rf "$OV"
 # evidence of a coverage run must not replace the evidence of the registered checks
@@ -22,7 +22,7 @@ for id in $IDS; do
   GOCOVERDIR="$COV/data/$id" VERIF_ROOT="$ROOT" "$COV/check" --tier "$TIER" "$id" 2>&1 | tail -1 | cut -c1-200
   go tool covdata textfmt -i="$COV/data/$id" -o "$COV/$id.txt" 2>/dev/null
 done
-dirs=$(ls -d "$COV"/data/* | paste -sd,)
+dirs=$(ls -d "$COV"/data/* | paste -sd,),verif/mc/cmd/check
 go tool covdata textfmt -i="$dirs" -o "$COV/all.txt"
 python3 "$ROOT/cover_report.py" "$COV/all.txt" "$ROOT/properties.jsonl" > "$COV/uncovered.txt"
 tail -30 "$COV/uncovered.txt"
